@@ -35,16 +35,18 @@ GrowTxs(s, k) ==
   LET free == (TxIds \ OnChain) \ {s[i] : i \in 1..Len(s)} IN
   IF k = 0 \/ free = {} THEN s ELSE GrowTxs(Append(s, RandomElement(free)), k - 1)
 
+(* one random draw per parameter, bound by a quantifier so that it is evaluated exactly once *)
+One(x) == {x}
 SimApply ==
-  LET ver == RandomElement({v \in Vers : v >= HeadVer})
-      d == Grow({}, ver, RandomElement(0..SimMaxOps))
-      txs == GrowTxs(<<>>, RandomElement(0..MaxTxs))
-  IN RApply(d, ver, txs)
+  \E ver \in One(IF 1 \notin Vers THEN 0 ELSE IF HeadVer = 1 \/ 0 \notin Vers \/ RandomElement(1..5) = 1 THEN 1 ELSE 0) :
+  \E d \in One(Grow({}, ver, RandomElement(0..SimMaxOps))) :
+  \E txs \in One(GrowTxs(<<>>, RandomElement(0..MaxTxs))) :
+    RApply(d, ver, txs)
 
-(* 3 : 2 in favour of growth while the chain may grow; reverts in runs, so forks get deep *)
+(* 3 : 2 in favour of growth while the chain may grow; reverts come in runs, so forks get deep *)
 SimNext ==
-  LET r == RandomElement(1..5) IN
-  IF NBlocks = 0 \/ (r <= 3 /\ NBlocks < MaxBlocks) THEN SimApply ELSE RRevert
+  \E r \in One(RandomElement(1..5)) :
+    IF NBlocks = 0 \/ (r <= 3 /\ NBlocks < MaxBlocks) THEN SimApply ELSE RRevert
 
 IdxProj == [height |-> idx'.height, loc |-> idx'.loc, msg |-> idx'.msg]
 
